@@ -51,9 +51,11 @@ def run_case(case):
         text = x_c20.render(full)
     evs = []
     # default options through every applicable entry point, then the rotated option rows
-    reads = [(e, 0, None) for e in case["entries"]] + [(e, ri, row) for e, ri, row in case.get("extra", [])]
-    for entry, ri, row in reads:
-        opts = {"data_type": case["dtype"], "strict": case["strict"], "interleaved": case["inter"], "row": row, "rowidx": ri}
+    # (the source kind - data=, file=StringIO / named file / descriptor stream, path= - rotates too)
+    reads = [(e, 0, None, sk) for e, sk in zip(case["entries"], case.get("srcs") or ["data"] * len(case["entries"]))] \
+        + [(e, ri, row, sk) for e, ri, row, sk in case.get("extra", [])]
+    for entry, ri, row, sk in reads:
+        opts = {"data_type": case["dtype"], "strict": case["strict"], "interleaved": case["inter"], "row": row, "rowidx": ri, "src": sk}
         ev = x_c20.run_entry(dendropy, entry, fam, text, opts, pump_k=case["k"])
         inter = x_c20.reader_kwargs(fam, opts).get("interleaved", bool(case["inter"]))
         # the token sequence is only needed by the judge for the dimension clauses
@@ -110,7 +112,7 @@ def option_reads(case, idx, rows, base_has):
     for j, ri in enumerate(ris):
         k = 2 if kind in ("base", "trunc", "charprefix") else 1
         for m in range(k):
-            out.append([ents[(idx + j + m) % len(ents)], ri, rr[ri]])
+            out.append([ents[(idx + j + m) % len(ents)], ri, rr[ri], x_c20.SOURCE_KINDS[(idx + j + 2 * m + 1) % len(x_c20.SOURCE_KINDS)]])
     return out
 
 
@@ -171,6 +173,9 @@ def load_cases(path, quick):
     per_kind["charedit"] = nedit
     for idx, c in enumerate(cases):
         c["extra"] = option_reads(c, idx, rows, base_has)
+        # default-option reads of the truncations and character level corruptions rotate the source kind too
+        if c["kind"] in ("trunc", "charprefix", "chardel", "charblank"):
+            c["srcs"] = [x_c20.SOURCE_KINDS[(idx + j) % len(x_c20.SOURCE_KINDS)] for j in range(len(c["entries"]))]
     per_kind["option_reads"] = sum(len(c["extra"]) for c in cases)
     return cases, per_kind, len(raw)
 
@@ -321,7 +326,7 @@ def run(ctx):
                 "x every token-level truncation x every single edit (delete, insert/replace by a class representative, drop a span, insert a keyword), "
                 "all token strings up to the bound over the tree-statement alphabet, pump descriptors (1 token x 10/1100/3000)%s; "
                 "+ every character-level prefix and every single-character deletion / blanking of every rendered base document; each read through the applicable entry points "
-                "with default reader options, and through rotating entry points under the 5 non-default reader option rows (pairwise covering; truncations under all rows). "
+                "with default reader options (source kind data=, rotating over data= / file=StringIO / named file / descriptor stream / path= for truncations and character-level corruptions), and through rotating entry points and source kinds under the 5 non-default reader option rows (pairwise covering; truncations under all rows). "
                 "distinct_nontrivial = distinct (family, entry point, text) with text different from an unmodified base document"
                 % (per_kind.get("base", 0), "" if ctx.quick else ", random double edits (RandomSubset)"))
     ctx.exhaustive = not only_docs
